@@ -254,7 +254,7 @@ func cmdCheck(args []string) int {
 	}
 	if *only == "" {
 		for _, g := range guards {
-			if g.Hits == 0 {
+			if g.Hits == 0 && !g.Optional {
 				undecided = append(undecided, fmt.Sprintf("guard matches no site in the current tree (target renamed or site removed?): %s", g.Src))
 			}
 		}
